@@ -2,12 +2,15 @@ CONSTANTS
   Prefix = {"p1", "p2"}
   Src = {"s1", "o"}
   SrcRank <- cRank
+  ShardOf <- cShard
   Obs = "o"
+  Suppress = {}
   Cls = {"x"}
   Reject = {}
   RejectSrc = {}
   SendMax = 1
   MaxChan = 2
+  OpKinds = {}
   LidMode = "abstract"
   Dev = {}
 SPECIFICATION Spec
